@@ -6,13 +6,18 @@ set -eu
 cd "$(dirname "$0")"
 . ./env.sh
 v=$1
-mkdir -p .build/bin .build/tmp
+mkdir -p .build/bin .build/tmp .build/mod
+# the go command may rewrite go.mod under -mod=mod: let it work on a copy so that /repo stays untouched
+cp "$REPO/go.mod" .build/mod/b$$.mod
+cp "$REPO/go.sum" .build/mod/b$$.sum
+export VERIF_MODFILE=$VERIF_ROOT/.build/mod/b$$.mod
+trap 'rm -f "$VERIF_ROOT/.build/mod/b$$.mod" "$VERIF_ROOT/.build/mod/b$$.sum" "$VERIF_ROOT/.build/mod/ov$$.json"' EXIT
 if [ -x ./build-e1.sh ] && ./build-e1.sh --is-variant "$v"; then
-  exec ./build-e1.sh "$v"
+  ./build-e1.sh "$v"; exit $?
 fi
 if [ -d "h/cmd/$v" ]; then
-  python3 tools/mkoverlay.py .build/ov-free.json.$$ ${VERIF_EXTRA_OVERLAY:+--merge "$VERIF_EXTRA_OVERLAY"} && mv .build/ov-free.json.$$ .build/ov-free.json
-  (cd "$REPO" && go build -tags verif -overlay "$VERIF_ROOT/.build/ov-free.json" -o "$VERIF_ROOT/.build/bin/$v" ./internal/verifh/cmd/$v)
-  exit 0
+  python3 tools/mkoverlay.py .build/mod/ov$$.json ${VERIF_EXTRA_OVERLAY:+--merge "$VERIF_EXTRA_OVERLAY"}
+  (cd "$REPO" && go build -modfile="$VERIF_MODFILE" -tags verif -overlay "$VERIF_ROOT/.build/mod/ov$$.json" -o "$VERIF_ROOT/.build/bin/$v" ./internal/verifh/cmd/$v)
+  exit $?
 fi
 echo "unknown variant $v" >&2; exit 2
